@@ -168,6 +168,7 @@ func (s *legacySim) fail(where string, err error) {
 	}
 	s.failed, s.failedAt = err, where
 	r.Count("legacy_negotiation_error")
+	r.Count("legacy_err:" + errClass(err))
 	r.Logf("%s: negotiation FAILED: %v", where, err)
 }
 
